@@ -429,7 +429,7 @@ class BHarness:
     """one symbolic-execution harness: entry `entry` (void(void), nondet_* inputs, __CPROVER_assume, __verif_check) in TU `src`"""
     def __init__(s, name, src, entry, defs=(), noinline=False, inline_all=False, tie_free=False, monotone=False, exact_add=False, stubs=None, maxpaths=20000, maxsteps=400000,
                  timeout=900, solver_timeout_ms=60000, what='', bound='', pre_inc=(), cflags=(), tiers=('quick', 'thorough'), std='c++11', min_paths=1, extra_exclusions=(), allow_error=False,
-                 native_replay=True, post=None, split=1, log_stores=False, strict=False):
+                 native_replay=True, post=None, split=1, log_stores=False, strict=False, real_model=False, perturb=True):
         s.__dict__.update(locals()); del s.__dict__['s']; s.redirect = None
 
 def _b_worker(args):
@@ -453,6 +453,7 @@ def _b_worker(args):
             if E.errors and not h.allow_error: E.obligations.append(('cmac_error not reachable', False))
             out['errors_reached'] += E.errors
             # A7 side conditions: every exact addition must be representable (checked by the harness-specific post hook)
+            for c in getattr(E.fp, 'div_obl', []): E.obligations.append(('denominator non-zero (finite result)', c))
             if h.post: h.post(E, out)
             extra = None
             if E.fp.tiny_sites:
@@ -468,7 +469,7 @@ def _b_worker(args):
                     if len(out['candidates']) < 40: out['candidates'].append({'obligation': name, 'words': ws, 'kinds': [k for _, k, _ in E.nondet], 'decisions': list(E.decisions)})
                 if len(out['samples']) < 6: out['samples'].append({'path_decisions': ''.join('T' if d else 'F' for d in E.decisions)[:80], 'obligation': name, 'verdict': verdict, 'solver_s': round(dt, 4)})
         from fractions import Fraction
-        st = irz.explore(m, '@' + h.entry, lambda: irz.SymFP(monotone=h.monotone, exact_add=h.exact_add, strict=h.strict), on_path=on_path, tie_free=h.tie_free, stubs=h.stubs,
+        st = irz.explore(m, '@' + h.entry, lambda: (irz.RealFP() if h.real_model else irz.SymFP(monotone=h.monotone, exact_add=h.exact_add, strict=h.strict)), on_path=on_path, tie_free=h.tie_free, stubs=h.stubs,
                          maxpaths=h.maxpaths, maxsteps=h.maxsteps, timeout=h.timeout, solver_timeout_ms=h.solver_timeout_ms,
                          initial_work=initial_work, stop_when_pending=(h.split * 6 if seeding else None), log_stores=h.log_stores)
         out['queries'] = st['queries'] + out['obl']; out['infeasible'] = st['infeasible']; out['remaining'] = st['remaining']
@@ -587,7 +588,7 @@ def run_engine_b(pid, tier, harnesses, ev, work, known_match=None, custom_replay
                     continue
             if not h.native_replay: continue
             if tried >= (1500 if tier == 'quick' else 6000): break     # replay budget per harness
-            for k in range(500 if tier == 'quick' else 1500):
+            for k in range((500 if tier == 'quick' else 1500) if h.perturb else 1):
                 ws = perturb_words(c['words'], c['kinds'], rnd, k)
                 try: verdict, outp = native_replay(work, h, ws, tag='b%d' % tried)
                 except Broken as b2: broken.append('%s: replay build failed: %s' % (h.name, b2)); verdict = 'x'; break
